@@ -282,7 +282,33 @@ def _bounds(var, guard):
 def _quant(n, c, is_forall):
     args = list(n.args)
     if len(args) == 4:
-        raise NotEvaluable("quantifier over a non-integer sort")
+        # forall(k, 'str', k in D [and ...], body): the domain is the container D named by the guard
+        var = args[0].id if isinstance(args[0], ast.Name) else None
+        guard, body = args[2], args[3]
+        conj = guard.values if isinstance(guard, ast.BoolOp) and isinstance(guard.op, ast.And) else [guard]
+        dom = None
+        for g in conj:
+            if isinstance(g, ast.Compare) and len(g.ops) == 1 and isinstance(g.ops[0], ast.In) and isinstance(g.left, ast.Name) and g.left.id == var:
+                dom = g.comparators[0]
+        if var is None or dom is None:
+            raise NotEvaluable("quantifier over a non-integer sort without a container domain")
+        saved = c.extra.get(var)
+        try:
+            for x in list(ev(dom, c)):
+                c.extra[var] = x
+                if not ev(guard, c):
+                    continue
+                r = bool(ev(body, c))
+                if is_forall and not r:
+                    return False
+                if not is_forall and r:
+                    return True
+            return True if is_forall else False
+        finally:
+            if saved is None:
+                c.extra.pop(var, None)
+            else:
+                c.extra[var] = saved
     vars_ = args[0].elts if isinstance(args[0], ast.Tuple) else [args[0]]
     guard, body = args[1], args[2]
     names = [v.id for v in vars_]
